@@ -31,6 +31,12 @@ def dispatch(prop):
     if prop == "C02":
         from . import nolook_check
         return nolook_check.c02
+    if prop == "C16":
+        from . import metrics_check
+        return metrics_check.c16
+    if prop == "C10":
+        from . import pair_check
+        return pair_check.c10
     raise SystemExit("no check registered for %s" % prop)
 
 
